@@ -88,7 +88,7 @@ class Check:
                 for via in ('chain', 'unimock'):
                     texts.append(f"scenario p{k}_{via}\nvia {via}\npar threads={th} per={per} pre={pre}\nend\n")
             for n in ([1, 2, 3, 7] if tier == 'quick' else [1, 2, 3, 7, 50, 400]):
-                for end in (0, 1, 2, 3):
+                for end in (0, 1, 2, 3, 4, 5):
                     texts.append(f"scenario helper_{n}_{end}\nvia unimock\nhelper n={n} end={end}\nend\n")
             for end in (0, 1, 2, 3, 4):
                 texts.append(f"scenario returnsdrop_{end}\nvia unimock\nreturnsdrop end={end}\nend\n")
